@@ -1,4 +1,5 @@
 import Jap.Lemmas.Namespace
+import Jap.Gen.YesNoWords
 /-!
 E5 "Channels" — the CHANNEL layer of the parser (property C05).
 
@@ -34,17 +35,43 @@ open Jap.NS
 
 /-! ## settings -/
 
+/-- the exponent part of a JSON number token: `e`/`E`, optional sign, digits -/
+structure ExpTok where
+  upper : Bool
+  sign : Option Bool          -- `some true` = '+', `some false` = '-', `none` = no sign (`1e5`)
+  digits : List Char
+deriving DecidableEq, Repr, Inhabited
+
+/-- a JSON number TOKEN that is not an integer literal (it has a fraction or an exponent), kept exactly as written:
+    sign, integer digits, optional fraction, optional exponent with optional sign -/
+structure NumTok where
+  neg : Bool
+  ip : List Char
+  frac : Option (List Char)
+  exp : Option ExpTok
+deriving DecidableEq, Repr, Inhabited
+
 inductive Scalar where
   | int (i : Int)
   | bool (b : Bool)
   | null
   | str (s : String)
+  | num (t : NumTok)
+deriving DecidableEq, Repr, Inhabited
+
+/-- the spelling of a yes/no setting: the word used where a channel carries text, and (optionally) the word given to
+    the negated option `--no_k=word` -/
+structure YWord where
+  word : String
+  negWord : Option String
 deriving DecidableEq, Repr, Inhabited
 
 inductive Val where
   | sc (s : Scalar)
   | list (xs : List Scalar)
   | dict (kvs : List (String × Int))
+  /-- a boolean for an `ActionYesNo` option, with its spelling -/
+  | yesno (w : YWord)
 deriving DecidableEq, Repr, Inhabited
 
 /-- a non-empty list of name segments -/
@@ -135,6 +162,84 @@ def keyOfEnvVar (pfx : Option String) (name : String) : Option Key :=
   let body := name.toList.drop (upper (replDots (prefixL pfx))).length
   keyOfSegs ((splitDU body).map (fun w => String.ofList (lower w)))
 
+/-! ## `ActionYesNo._boolean_type`: the word table is regenerated from the source (Gen/YesNoWords) -/
+
+def ynWord (l : List String) (w : List Char) : Bool := l.any (fun s => s.toList == w)
+
+/-- a word to a boolean, as written: `x.lower() in accepted`, then `x.lower() in truthy` (each `.lower()` only if the source has it) -/
+def boolWord (w : List Char) : Option Bool :=
+  if ynWord Jap.Gen.ynAccepted (if Jap.Gen.ynAcceptedLowered then lower w else w) then
+    some (ynWord Jap.Gen.ynTrue (if Jap.Gen.ynTrueLowered then lower w else w))
+  else none
+
+def ynBool (w : YWord) : Bool := (boolWord w.word.toList).getD false
+
+/-! ## JSON number tokens -/
+
+/-- `str.isdigit()` on ASCII -/
+def isDigits (l : List Char) : Bool := !l.isEmpty && l.all Char.isDigit
+
+/-- the integer part of a JSON number: `0` or a digit string that does not start with `0` -/
+def canonInt (l : List Char) : Bool :=
+  isDigits l && (match l with
+    | [_] => true
+    | c :: _ => c != '0'
+    | [] => false)
+
+def wfTok (t : NumTok) : Bool :=
+  canonInt t.ip
+  && (match t.frac with | some f => isDigits f | none => true)
+  && (match t.exp with | some e => isDigits e.digits | none => true)
+  && (t.frac.isSome || t.exp.isSome)
+
+def signChars : Option Bool → List Char
+  | some true => ['+']
+  | some false => ['-']
+  | none => []
+
+def expChars (e : ExpTok) : List Char := (if e.upper then 'E' else 'e') :: (signChars e.sign ++ e.digits)
+
+def fracChars : Option (List Char) → List Char
+  | some f => '.' :: f
+  | none => []
+
+def expOptChars : Option ExpTok → List Char
+  | some e => expChars e
+  | none => []
+
+def tokBody (t : NumTok) : List Char := t.ip ++ (fracChars t.frac ++ expOptChars t.exp)
+
+def tokChars (t : NumTok) : List Char := if t.neg then '-' :: tokBody t else tokBody t
+
+def readExp : List Char → Option ExpTok
+  | [] => none
+  | c :: r =>
+    if c = 'e' ∨ c = 'E' then
+      match r with
+      | [] => none
+      | d :: r' =>
+        if d = '+' then (if isDigits r' then some ⟨decide (c = 'E'), some true, r'⟩ else none)
+        else if d = '-' then (if isDigits r' then some ⟨decide (c = 'E'), some false, r'⟩ else none)
+        else if isDigits (d :: r') then some ⟨decide (c = 'E'), none, d :: r'⟩ else none
+    else none
+
+/-- after the integer digits: optional fraction, optional exponent, nothing else; at least one of the two -/
+def readTail (neg : Bool) (ip : List Char) : List Char → Option NumTok
+  | [] => none
+  | c :: r =>
+    if c = '.' then
+      if (r.takeWhile Char.isDigit).isEmpty then none
+      else if (r.dropWhile Char.isDigit).isEmpty then some ⟨neg, ip, some (r.takeWhile Char.isDigit), none⟩
+      else (readExp (r.dropWhile Char.isDigit)).map (fun e => ⟨neg, ip, some (r.takeWhile Char.isDigit), some e⟩)
+    else (readExp (c :: r)).map (fun e => ⟨neg, ip, none, some e⟩)
+
+def readNumBody (neg : Bool) (w : List Char) : Option NumTok :=
+  if canonInt (w.takeWhile Char.isDigit) then readTail neg (w.takeWhile Char.isDigit) (w.dropWhile Char.isDigit) else none
+
+def readNum : List Char → Option NumTok
+  | [] => none
+  | c :: r => if c = '-' then readNumBody true r else readNumBody false (c :: r)
+
 /-! ## the canonical text of a value (`json.dumps`) -/
 
 /-- characters that `json.dumps` writes as themselves inside a string literal -/
@@ -152,6 +257,7 @@ def scalarChars : Scalar → List Char
   | .bool false => ['f', 'a', 'l', 's', 'e']
   | .null => ['n', 'u', 'l', 'l']
   | .str s => quoteL s.toList
+  | .num t => tokChars t
 
 /-- `", ".join(...)` -/
 def joinSep : List (List Char) → List Char
@@ -165,6 +271,7 @@ def valChars : Val → List Char
   | .sc s => scalarChars s
   | .list xs => '[' :: (joinSep (xs.map scalarChars) ++ [']'])
   | .dict kvs => '{' :: (joinSep (kvs.map pairChars) ++ ['}'])
+  | .yesno w => scalarChars (.bool (ynBool w))          -- a document / object carries the boolean itself
 
 def textOf (v : Val) : String := String.ofList (valChars v)
 
@@ -199,7 +306,7 @@ def readBare (w : List Char) : Option Scalar :=
     if w = ['t', 'r', 'u', 'e'] then some (.bool true)
     else if w = ['f', 'a', 'l', 's', 'e'] then some (.bool false)
     else if w = ['n', 'u', 'l', 'l'] then some .null
-    else none
+    else (readNum w).map .num
 
 def bareChar (c : Char) : Bool := c != ',' && c != ']' && c != '}' && c != ' ' && c != '"'
 
@@ -273,9 +380,93 @@ def loadL : List Char → Option Val
 
 def loadText (t : String) : Option Val := loadL t.toList
 
-/-- what the reading side makes of the text of an option / variable: kept as it is at a str-typed position -/
-def readLeaf (raw : Bool) (t : List Char) : Option Val :=
-  if raw then some (.sc (.str (String.ofList t))) else loadL t
+/-! ## kinds of positions -/
+
+/-- `nargs` of a yes/no action: flags only (`nargs=0`), optional word (`'?'`), word required (`1`, which the action turns into `None`) -/
+inductive YN where
+  | bare | opt | one
+deriving DecidableEq, Repr, Inhabited
+
+/-- `nargs` as given to `add_argument` -/
+inductive RawNargs where
+  | none | q | star | plus | int (n : Nat)
+deriving DecidableEq, Repr, Inhabited
+
+/-- `_actions._is_action_value_list`: `nargs in {"*", "+"} or (isinstance(nargs, int) and nargs != 0)` -/
+def isActionValueList : RawNargs → Bool
+  | .star => true
+  | .plus => true
+  | .int n => n != 0
+  | _ => false
+
+/-- the list-valued options of the grammar -/
+inductive NArgs where
+  | n1 | n2 | plus | star
+deriving DecidableEq, Repr, Inhabited
+
+def NArgs.raw : NArgs → RawNargs
+  | .n1 => .int 1
+  | .n2 => .int 2
+  | .plus => .plus
+  | .star => .star
+
+/-- how many values the command line may give (argparse) -/
+def NArgs.admits : NArgs → Nat → Bool
+  | .n1, n => n == 1
+  | .n2, n => n == 2
+  | .plus, n => decide (1 ≤ n)
+  | .star, _ => true
+
+inductive Kind where
+  /-- a typed position that is not str: option / variable text is loaded -/
+  | json
+  /-- a str-typed position (`str`, `Literal` of strings, `Enum`): option / variable text is the value -/
+  | raw
+  /-- an `ActionYesNo` option -/
+  | yesno (n : YN)
+  /-- a list-valued option (`nargs` 1, 2, '+', '*'); `elemRaw`: the items are at str-typed positions -/
+  | nlist (n : NArgs) (elemRaw : Bool)
+deriving DecidableEq, Repr, Inhabited
+
+/-- `ActionYesNo._boolean_type` on a loaded value: a str among the words, or a bool; anything else is a TypeError -/
+def booleanType : Val → Option Bool
+  | .sc (.str s) => boolWord s.toList
+  | .sc (.bool b) => some b
+  | _ => none
+
+/-- the value as documents and objects carry it -/
+def norm : Val → Val
+  | .yesno w => .sc (.bool (ynBool w))
+  | v => v
+
+/-- a loaded value at a position (`_check_value_key`): a yes/no action converts words -/
+def coerce : Kind → Val → Option Val
+  | .yesno _, v => (booleanType v).map (fun b => .sc (.bool b))
+  | _, v => some v
+
+/-- one item of a list-valued option given as text -/
+def readElem (elemRaw : Bool) (t : List Char) : Option Scalar :=
+  if elemRaw then some (.str (String.ofList t))
+  else match loadL t with
+    | some (.sc s) => some s
+    | _ => none
+
+/-- the text of ONE option value or of an environment variable, read at a position of the kind.  A list-valued
+    option (`_load_env_vars`): the text is loaded; a list is taken as the items, anything else is the single item -/
+def readLeafK : Kind → List Char → Option Val
+  | .json, t => loadL t
+  | .raw, t => some (.sc (.str (String.ofList t)))
+  | .yesno _, t => (boolWord t).map (fun b => .sc (.bool b))
+  | .nlist _ er, t =>
+    match loadL t with
+    | some (.list xs) => some (.list xs)
+    | _ => (readElem er t).map (fun s => .list [s])
+
+/-- the text an environment variable carries -/
+def envChars : Kind → Val → List Char
+  | .yesno _, .yesno w => w.word.toList
+  | .nlist _ _, v => valChars v
+  | _, v => argChars v
 
 /-! ## `load_basic` (`_loaders_dumpers.py`), on ASCII text -/
 
@@ -293,9 +484,6 @@ def isSpace (c : Char) : Bool :=
   c == ' ' || (decide (9 ≤ c.toNat) && decide (c.toNat ≤ 13)) || (decide (28 ≤ c.toNat) && decide (c.toNat ≤ 31))
 
 def strip (l : List Char) : List Char := ((l.dropWhile isSpace).reverse.dropWhile isSpace).reverse
-
-/-- `str.isdigit()` on ASCII -/
-def isDigits (l : List Char) : Bool := !l.isEmpty && l.all Char.isDigit
 
 /-- `s.replace(c, "", n)` -/
 def removeN (c : Char) : Nat → List Char → List Char
@@ -354,6 +542,7 @@ def basicOf : Scalar → Basic
   | .bool b => .bool b
   | .null => .null
   | .str _ => .notLoaded
+  | .num _ => .notLoaded      -- not claimed: `1e5` is a float for load_basic, `2E3` is not loaded (C01 covers the loaders)
 
 /-! ## values inside the Namespace model -/
 
@@ -362,19 +551,20 @@ def encScalar : Scalar → V
   | .null => .none
   | .bool b => .tup [.atom 0, .atom (if b then 1 else 0)]
   | .str s => .tup [.atom 1, .lst (s.toList.map fun c => .atom c.toNat)]
+  | .num t => .tup [.atom 2, .lst ((tokChars t).map fun c => .atom c.toNat)]
 
 /-- leaves of the namespace: the Namespace model only has integer atoms, so booleans and strings are tagged tuples -/
 def enc : Val → V
   | .sc s => encScalar s
   | .list xs => .lst (xs.map encScalar)
   | .dict kvs => .dct (kvs.map fun kv => (⟨false, kv.1⟩, .atom kv.2))
+  | .yesno w => encScalar (.bool (ynBool w))
 
 /-! ## the parser as far as the channels see it -/
 
 structure Decl where
   key : Key
-  /-- a str-typed position (`str`, `Literal` of strings, `Enum`): option / variable text is the value -/
-  raw : Bool
+  kind : Kind
 deriving DecidableEq, Repr, Inhabited
 
 structure Parser where
@@ -398,8 +588,8 @@ inductive Channel where
 deriving DecidableEq, Repr, Inhabited
 
 inductive Source where
-  /-- `--a.b=text` tokens -/
-  | argv (toks : List String)
+  /-- the command line, one group per option: `--a.b=text`, `--flag`, `--no_flag`, `--k v1 v2 …` -/
+  | argv (groups : List (List String))
   /-- a nested mapping, given by its leaves in document order (path, leaf text) -/
   | cfgNested (leaves : List (List String × String))
   /-- a flat mapping with dotted keys (key, leaf text) -/
@@ -439,16 +629,33 @@ def sizeOfKeys {α β : Type} : List (List α × β) → Nat
 def docOrder {α : Type} [BEq α] {β : Type} (l : List (List α × β)) : List (List α × β) :=
   groupOrder (sizeOfKeys l + 1) l
 
-def argTok (kv : Key × Val) : String :=
-  String.ofList ('-' :: '-' :: (destL kv.1 ++ '=' :: argChars kv.2))
+def optChars (k : Key) : List Char := '-' :: '-' :: destL k
+def noChars (k : Key) : List Char := '-' :: '-' :: 'n' :: 'o' :: '_' :: destL k
+
+/-- the arguments that give one setting on the command line -/
+def argGroup (kind : Kind) (k : Key) (v : Val) : List String :=
+  match kind, v with
+  | .yesno n, .yesno w =>
+    match n, w.negWord with
+    | .bare, _ => [String.ofList (if ynBool w then optChars k else noChars k)]
+    | _, some nw => [String.ofList (noChars k ++ '=' :: nw.toList)]
+    | _, none => [String.ofList (optChars k ++ '=' :: w.word.toList)]
+  | .nlist _ _, .list [x] => [String.ofList (optChars k ++ '=' :: argChars (.sc x))]
+  | .nlist _ _, .list xs => String.ofList (optChars k) :: xs.map (fun x => String.ofList (argChars (.sc x)))
+  | _, v => [String.ofList (optChars k ++ '=' :: argChars v)]
+
+def kindOf (P : Parser) (k : Key) : Kind :=
+  match findDecl k.segs P.decls with
+  | some d => d.kind
+  | none => .json
 
 def render (P : Parser) : Channel → Settings → Source
-  | .argv, S => .argv (S.map argTok)
+  | .argv, S => .argv (S.map fun kv => argGroup (kindOf P kv.1) kv.1 kv.2)
   | .cfgNested, S => .cfgNested (docOrder (S.map fun kv => (kv.1.segs, textOf kv.2)))
   | .cfgDotted, S => .cfgDotted (S.map fun kv => (dest kv.1, textOf kv.2))
   | .objNested, S => .objNested (docOrder (S.map fun kv => (kv.1.segs, kv.2)))
   | .objDotted, S => .objDotted (S.map fun kv => (dest kv.1, kv.2))
-  | .env, S => .env (S.map fun kv => (envVar P.pfx kv.1, argText kv.2))
+  | .env, S => .env (S.map fun kv => (envVar P.pfx kv.1, String.ofList (envChars (kindOf P kv.1) kv.2)))
 
 /-! ## decoding a source into assignments -/
 
@@ -464,36 +671,67 @@ def traverse {α β : Type} (f : α → Option β) : List α → Option (List β
 
 def notEq (c : Char) : Bool := c != '='
 
-/-- one `--key=text` token (`ActionTypeHint.__call__` → `_check_type` → `cfg.update(val, dest)`) -/
-def decodeArg (P : Parser) (tok : String) : Option (List SKey × V) :=
-  match tok.toList with
-  | c1 :: c2 :: r =>
-    if c1 = '-' ∧ c2 = '-' then
-      match r.dropWhile notEq with
-      | _ :: text =>
-        let segs := segsOf (r.takeWhile notEq)
-        match findDecl segs P.decls with
-        | some d =>
-          match readLeaf d.raw text with
-          | some v => some (skeys P segs, enc v)
-          | none => none
-        | none => none
-      | [] => none
-    else none
+def stripNo : List Char → Option (List Char)
+  | c1 :: c2 :: c3 :: r => if c1 = 'n' ∧ c2 = 'o' ∧ c3 = '_' then some r else none
   | _ => none
+
+/-- the value an option gives: `eqText` is the text after `=`, `vals` the arguments that follow the option;
+    `neg`: the negated spelling `--no_k` of a yes/no option -/
+def readOpt : Kind → Bool → Option (List Char) → List (List Char) → Option Val
+  | .json, _, some t, [] => loadL t
+  | .raw, _, some t, [] => some (.sc (.str (String.ofList t)))
+  | .yesno n, neg, none, [] => if n = .one then none else some (.sc (.bool (!neg)))
+  | .yesno n, neg, some t, [] => if n = .bare then none else (boolWord t).map (fun b => .sc (.bool (b != neg)))
+  | .nlist n er, _, some t, [] => if n.admits 1 then (readElem er t).map (fun s => .list [s]) else none
+  | .nlist n er, _, none, vals => if n.admits vals.length then (traverse (readElem er) vals).map .list else none
+  | _, _, _, _ => none
+
+/-- the yes/no option a `--no_<dest>` spelling belongs to -/
+def negTarget (P : Parser) (kpart : List Char) : Option (Decl × YN) :=
+  match stripNo kpart with
+  | some rest =>
+    match findDecl (segsOf rest) P.decls with
+    | some d =>
+      match d.kind with
+      | .yesno n => some (d, n)
+      | _ => none
+    | none => none
+  | none => none
+
+def decodeOpt (P : Parser) (kpart : List Char) (eqText : Option (List Char)) (vals : List (List Char)) : Option (List SKey × V) :=
+  match negTarget P kpart with
+  | some (d, n) => (readOpt (.yesno n) true eqText vals).map (fun v => (skeys P d.key.segs, enc v))
+  | none =>
+    match findDecl (segsOf kpart) P.decls with
+    | some d => (readOpt d.kind false eqText vals).map (fun v => (skeys P d.key.segs, enc v))
+    | none => none
+
+/-- one option with its values (`ActionTypeHint.__call__` / `ActionYesNo.__call__` → `cfg.update(val, dest)`) -/
+def decodeArg (P : Parser) (g : List String) : Option (List SKey × V) :=
+  match g with
+  | [] => none
+  | tok :: vals =>
+    match tok.toList with
+    | c1 :: c2 :: r =>
+      if c1 = '-' ∧ c2 = '-' then
+        match r.dropWhile notEq with
+        | _ :: text => if vals.isEmpty then decodeOpt P (r.takeWhile notEq) (some text) [] else none
+        | [] => decodeOpt P r none (vals.map String.toList)
+      else none
+    | _ => none
 
 /-- a leaf of a loaded document: the key must be an argument (`_apply_actions` → `_check_value_key`) -/
 def decodeLeafText (P : Parser) (e : List String × String) : Option (List SKey × V) :=
   match findDecl e.1 P.decls with
-  | some _ =>
+  | some d =>
     match loadL e.2.toList with
-    | some v => some (skeys P e.1, enc v)
+    | some v => (coerce d.kind v).map (fun v' => (skeys P e.1, enc v'))
     | none => none
   | none => none
 
 def decodeLeafVal (P : Parser) (e : List String × Val) : Option (List SKey × V) :=
   match findDecl e.1 P.decls with
-  | some _ => some (skeys P e.1, enc e.2)
+  | some d => (coerce d.kind (norm e.2)).map (fun v' => (skeys P e.1, enc v'))
   | none => none
 
 def lookupS (k : String) : List (String × String) → Option String
@@ -507,7 +745,7 @@ def decodeEnv (P : Parser) (vars : List (String × String)) : List Decl → Opti
     match lookupS (envVar P.pfx d.key) vars with
     | none => decodeEnv P vars r
     | some t =>
-      match readLeaf d.raw t.toList with
+      match readLeafK d.kind t.toList with
       | none => none
       | some v =>
         match decodeEnv P vars r with
@@ -560,16 +798,36 @@ def wfKey (k : Key) : Bool := k.segs.all wfSeg
 
 def safeScalar : Scalar → Bool
   | .str s => s.toList.all safeChar
+  | .num t => wfTok t
   | _ => true
 
 def safeVal : Val → Bool
   | .sc s => safeScalar s
   | .list xs => xs.all safeScalar
   | .dict kvs => kvs.all (fun kv => kv.1.toList.all safeChar) && distinctKeys kvs
+  | .yesno _ => true
 
 def isStrVal : Val → Bool
   | .sc (.str _) => true
   | _ => false
+
+def scalarIsStr : Scalar → Bool
+  | .str _ => true
+  | _ => false
+
+/-- the value has the shape the position expects (strings exactly at the str-typed positions) -/
+def kindMatches : Kind → Val → Bool
+  | .json, .sc s => !scalarIsStr s
+  | .json, .list _ => true
+  | .json, .dict _ => true
+  | .raw, .sc (.str _) => true
+  | .yesno _, .yesno w =>
+    (boolWord w.word.toList).isSome
+    && (match w.negWord with
+        | some nw => boolWord nw.toList == some (!ynBool w)
+        | none => true)
+  | .nlist n er, .list xs => n.admits xs.length && xs.all (fun x => scalarIsStr x == er)
+  | _, _ => false
 
 def incomparable (a b : List String) : Bool := !a.isPrefixOf b && !b.isPrefixOf a
 
@@ -579,14 +837,14 @@ def pairwiseB {α : Type} (r : α → α → Bool) : List α → Bool
 
 /-- the parser: every key can be spelled in every channel, no key is a prefix of another, variable names are distinct -/
 def goodParser (P : Parser) : Bool :=
-  P.decls.all (fun d => wfKey d.key && envSafe d.key)
+  P.decls.all (fun d => wfKey d.key && envSafe d.key && (stripNo (destL d.key)).isNone)
   && pairwiseB (fun a b => incomparable a.key.segs b.key.segs) P.decls
   && pairwiseB (fun a b => foldKey a.key != foldKey b.key) P.decls
 
 /-- the settings: declared keys, each at most once, text form unambiguous (strings exactly at the str-typed positions) -/
 def goodSettings (P : Parser) (S : Settings) : Bool :=
   S.all (fun kv => match findDecl kv.1.segs P.decls with
-    | some d => d.raw == isStrVal kv.2 && safeVal kv.2
+    | some d => kindMatches d.kind kv.2 && safeVal kv.2
     | none => false)
   && pairwiseB (fun a b => a.1 != b.1) S
 
